@@ -9,11 +9,12 @@
     corpus/C10/k1_double_put.ops: the next Start's handler received the stale error and lost its own response).
     The repaired client (`deleteIfCurrent`) and this model do nothing in that case: exactly one invocation.
   * `blocked_write_failure_alone`: a failing blocked Write with nothing in between is the ordinary write failure.
-  Not proved: at-most-once for ALL L2 histories (the L1 induction has not been redone over suspended states); the L2
-  histories of the client stream are compared with the implementation instead.
+  * `l2_handler_at_most_once`, `l2_never_started_never_invoked`, `l2_invocation_from_start`: at most once, never
+    unstarted, for ALL L2 histories (Proofs/ClientL2Acct.lean redoes the L1 induction over suspended states).
 -/
 import Stun.Model.ClientL2
 import Stun.Proofs.ClientHistory
+import Stun.Proofs.ClientL2Acct
 namespace Stun.C10L2
 open Stun Stun.Client Stun.ClientProofs
 
@@ -152,5 +153,40 @@ theorem f14_write_after_completion :
       .deliverDecoded id1 resp1, .release true]).2 =
       [.write req1 (some 1), .call 1 id1 (.msg resp1), .write req1 (some 1)] := by
   decide
+
+
+/-! ### at most once, for ALL L2 histories
+
+  Histories over every L1 operation plus blocking writes, blocking agent registrations, blocking first writes of
+  `Start`, their release with success or failure, and datagrams processed in between - any length, any ids, any
+  number of simultaneously suspended calls. `Proofs/ClientL2Acct.lean` redoes the L1 accounting over suspended states:
+  every suspended call carries the transaction it registered (`SuspOK`), its second half finishes that transaction
+  only if it is still the registered one (`deleteIfCurrent`), and so invocations plus table entries never exceed the
+  `Start`s. The inequality (not equality) is forced by `Start`'s own error path, which deletes by id. -/
+
+/-- no handler is ever invoked twice, whatever blocks and whatever happens meanwhile -/
+theorem l2_handler_at_most_once (ops : List COp2) (h : Nat) (hu : startCount2 h ops ≤ 1) :
+    calls h (({} : Client2).run ops).2 ≤ 1 := by
+  have := (run2_spec ops [] {} inv2_init).2.2 h
+  have h0 : pend h ({} : Client2).c = 0 := rfl
+  omega
+
+/-- a handler that was never given to `Start` is never invoked -/
+theorem l2_never_started_never_invoked (ops : List COp2) (h : Nat) (hu : startCount2 h ops = 0) :
+    calls h (({} : Client2).run ops).2 = 0 := by
+  have := (run2_spec ops [] {} inv2_init).2.2 h
+  have h0 : pend h ({} : Client2).c = 0 := rfl
+  omega
+
+/-- every invocation is the handler of a `Start` of the history, under the id it was started with -/
+theorem l2_invocation_from_start (ops : List COp2) (h : Nat) (id : TID) (e : CEv)
+    (hm : COut.call h id e ∈ (({} : Client2).run ops).2) : ∃ raw, (h, id, raw) ∈ starts2Of ops := by
+  obtain ⟨raw, hr⟩ := (run2_spec ops [] {} inv2_init).2.1 h id e hm
+  exact ⟨raw, by simpa using hr⟩
+
+/-- the hypothesis is met by the K1 / K1b / F12 / F14 histories (one `Start` of handler 1 each), so the theorem
+    speaks about them -/
+example : startCount2 1 k1History ≤ 1 := by decide
+example : startCount2 1 [.startBlocked id1 req1 1, .deliverDecoded id1 resp1, .release false] ≤ 1 := by decide
 
 end Stun.C10L2
